@@ -1103,6 +1103,54 @@ fn connect_stall_cases() -> Vec<(String, Option<(String, String)>, bool)> {
 }
 
 //
+// Overall timeouts of about the time a loopback connect takes: wherever the deadline falls - before
+// the connect, during it, between the connect and the start of the timeout thread, after it - the
+// call against a silent peer ends at once, never after the (much longer) read timeout.
+//
+fn tiny_timeout_sweep() -> (String, Option<(String, String)>) {
+    let name = "tiny-timeouts-sweep".to_string();
+    let listener = TcpListener::bind("127.0.0.1:0").unwrap();
+    let port = listener.local_addr().unwrap().port();
+    listener.set_nonblocking(true).unwrap();
+    let stop = Arc::new(std::sync::atomic::AtomicBool::new(false));
+    let s2 = stop.clone();
+    let server = std::thread::spawn(move || {
+        // accepts and stays silent; the connections are kept until the end
+        let mut held = Vec::new();
+        while !s2.load(std::sync::atomic::Ordering::SeqCst) {
+            match listener.accept() {
+                Ok((s, _)) => held.push(s),
+                Err(_) => std::thread::sleep(Duration::from_micros(200)),
+            }
+        }
+    });
+    let url = format!("http://127.0.0.1:{port}/x");
+    let mut worst: Option<(u64, Duration, String)> = None;
+    let mut n = 0;
+    'outer: for _round in 0..2 {
+        for t_us in (5..=600u64).step_by(5) {
+            n += 1;
+            let t0 = Instant::now();
+            let res = guarded(|| attohttpc::get(&url).timeout(Duration::from_micros(t_us)).read_timeout(Duration::from_millis(2500)).send().and_then(|r| r.bytes()));
+            let el = t0.elapsed();
+            if el > Duration::from_millis(1000) || !matches!(res, Ok(Err(_))) {
+                worst = Some((t_us, el, format!("{res:?}").chars().take(100).collect()));
+                break 'outer;
+            }
+        }
+    }
+    stop.store(true, std::sync::atomic::Ordering::SeqCst);
+    let _ = server.join();
+    let viol = worst.map(|(t_us, el, res)| {
+        (
+            "phase-not-bounded".to_string(),
+            format!("timeout({t_us} us) against a peer that accepts and stays silent, read timeout 2.5 s (call {n} of a sweep over 5..600 us): returned {res} after {el:?}"),
+        )
+    });
+    (name, viol)
+}
+
+//
 // The threads of the connection race are threads the request created too: when the race was won
 // while an earlier attempt was still waiting for an address that never answers, dropping the
 // response does not end that attempt - it stays until its connect timeout.
@@ -1185,6 +1233,7 @@ pub fn c13(ctx: &Ctx) -> Report {
             connect_stall_skipped += 1;
         }
     }
+    extras.push(tiny_timeout_sweep());
     {
         let (name, viol, ran) = loser_attempt_case();
         if ran {
@@ -1295,6 +1344,7 @@ pub fn replay(v: &serde_json::Value) -> i32 {
         r.extend(connect_stall_cases().into_iter().map(|(n, v, _)| (n, v)));
         let (n, v, _) = loser_attempt_case();
         r.push((n, v));
+        r.push(tiny_timeout_sweep());
         println!("{r:?}");
         return if r.iter().any(|(_, v)| v.is_some()) { 1 } else { 0 };
     }
